@@ -28,7 +28,7 @@ def compare(chk, model, hscan, items, kind):
     mq, order = [], []
     for i, (decl, sexp, bufs, meta) in enumerate(items):
         for bi, b in enumerate(bufs):
-            mq.append("re %s %s" % (hx(b), sexp))
+            mq.append("%s %s %s" % (meta.get("cmd", "re"), hx(b), meta.get("pat", sexp)))
             order.append((i, bi))
     mres, _ = vlib.run_lines(model, mq, timeout=3000)
     spec = dict(zip(order, mres))
